@@ -1,6 +1,7 @@
 import Ts.Kahn
 import Ts.KahnComplete
 import Ts.Refine
+import Ts.CycleSound
 
 /-! # C15 — property theorems (statements only; proofs live in the family libraries) -/
 
@@ -80,6 +81,28 @@ theorem G_toposort_cyclic :
 theorem wfCheck_sound :
     ∀ (g : Ts.G), Ts.wfCheck g = true → Ts.WFG g ∧ Ts.WellRanked g g.edges [] :=
   @Ts.wfCheck_sound
+end
+
+section
+open Ts
+
+/-- FindCycle, existence: the checker's breadth-first search decides whether a walk from the seed back to itself exists
+(graphs whose edges end in nodes of the graph; `closedCheck` is evaluated on every well-formed build) -/
+theorem hasCycleThrough_iff :
+    ∀ (g : Ts.G) (hc : g.Closed) (seed : Nat), g.hasCycleThrough seed = true ↔ g.Path seed seed :=
+  @Ts.hasCycleThrough_iff
+
+/-- FindCycle, answers: what the validator accepts is either the empty list while no cycle through the seed exists, or a
+list that starts at the seed and is a closed walk along edges back to the seed -/
+theorem cycleAnswerOK_sound :
+    ∀ (g : Ts.G) (hc : g.Closed) (seed : Nat) (answer : List Nat) (h : g.cycleAnswerOK seed answer = true),
+    (answer = [] ∧ ¬ g.Path seed seed) ∨
+    (∃ rest, answer = seed :: rest ∧ g.Walk answer seed ∧ g.Path seed seed) :=
+  @Ts.cycleAnswerOK_sound
+
+theorem closedCheck_sound :
+    ∀ (g : Ts.G) (h : Ts.closedCheck g = true), g.Closed :=
+  @Ts.closedCheck_sound
 end
 
 end Props.C15
